@@ -436,7 +436,8 @@ def gzipTool (z : Gzip.Z) (i : GzipIn) (level mtime : Nat) (h : RespHeaders) (bo
 
 /-! ### `ResponseEncoder` -/
 
-def sUtf8 : Str := ['u', 't', 'f', '-', '8']
+/-- `ResponseEncoder.default_encoding`, from the generated table -/
+def sUtf8 : Str := Gen.C17.defaultEncoding
 def sIso : Str := ['i', 's', 'o', '-', '8', '8', '5', '9', '-', '1']
 def sCharset : Str := ['c', 'h', 'a', 'r', 's', 'e', 't']
 def sTextSlash : Str := ['t', 'e', 'x', 't', '/']
